@@ -5,14 +5,14 @@
 cd /verif
 WT=/tmp/wt-sweep
 [ -d $WT ] || git -C /repo worktree add -q $WT HEAD
-while read -r name prop only; do
+while read -r name prop only tier; do
   [ -n "$1" ] && ! echo "$name" | grep -Eq "$1" && continue
   d=seeded/$name
   [ -f $d/patch.diff ] || continue
   git -C $WT checkout -q -- . && git -C $WT clean -fdq
   git -C $WT apply $PWD/$d/patch.diff || { echo "$name: patch does not apply"; continue; }
   out=/tmp/sweep_$name.txt
-  VERIF_REPO=$WT python3 check $prop --only "$only" --no-evidence > $out 2>&1
+  VERIF_REPO=$WT python3 check $prop --tier ${tier:-quick} --only "$only" --no-evidence > $out 2>&1
   rc=$?
   line=$(grep -E "^VIOLATION|^INCONCLUSIVE" $out | head -3 | tr '\n' ';')
   python3 - "$d/meta.json" "$prop" "$only" "$rc" "$line" <<'PY'
@@ -41,7 +41,7 @@ C11-load-allocator-state-region-range C11 c11_mark_page_allocated_n13
 C01-select-slot-2pc-only-when-corrupt C01 c12_select_slot_table
 C15-varint-65536-wraps C15 c15_varint_roundtrip
 C20-close-flags-after-backend-close C20 c20_close_exactly_once
-C12-verify-skips-last-child C12 c12_verify_every_child_checked
-C14-resize-to-truncate-before-mark-full C14 c14_resize_to
+C12-verify-skips-last-child C12 c12_verify_single_page_tree
+C14-resize-to-truncate-before-mark-full C14 c14_resize_to_drop_regions_tracker thorough
 C04-large-value-sibling-order C04 c04_leaf_insert_vv_at0
 LIST
